@@ -30,6 +30,7 @@ for line in sys.stdin:
     if cmd["op"] == "quit":
         break
     out = {}
+    kerneldll.ALLOW_SINGLE_PRECISION_DLLS = not cmd.get("noflag")
     try:
         q = np.array([0.1, 0.2, 0.3, 0.4, 0.5, 0.6])
         if cmd.get("ngauss"):
